@@ -598,4 +598,216 @@ theorem store_is_committed (cfg : Cfg) (ops : List Op) (hno : Op.freset ∉ ops)
     View.Same (viewOf (run cfg {} ops).kv) (committedView cfg ops) :=
   run_commit cfg ops {} {} (View.Same.refl _) hno hpc
 
+/-! ## every crash point, in order -/
+
+/-- the newest store of a store history (the empty store before the first mutation) -/
+def newest : List KV → KV
+  | kv :: _ => kv
+  | [] => {}
+
+/-- the store after the `k`-th mutation in a store history `h` (newest first); `k` beyond it = the newest -/
+def histAt (h : List KV) (k : Nat) : KV := newest (h.drop (h.length - min k h.length))
+
+theorem histAt_old (new old : List KV) (k : Nat) (hk : k ≤ old.length) :
+    histAt (new ++ old) k = histAt old k := by
+  unfold histAt
+  have h1 : (new ++ old).length - min k (new ++ old).length = new.length + (old.length - min k old.length) := by
+    simp only [List.length_append]; omega
+  rw [h1, List.drop_append, List.drop_eq_nil_of_le (by omega), Nat.add_sub_cancel_left, List.nil_append]
+
+theorem histAt_new (new old : List KV) (k : Nat) (h1 : old.length < k) (h2 : k < (new ++ old).length) :
+    histAt (new ++ old) k ∈ new.drop 1 := by
+  unfold histAt
+  simp only [List.length_append] at h2 ⊢
+  have hi : new.length + old.length - min k (new.length + old.length) = (new.length + old.length - k) := by omega
+  rw [hi]
+  have hlt : new.length + old.length - k < new.length := by omega
+  rw [List.drop_append_of_le_length (by omega)]
+  cases hd : List.drop (new.length + old.length - k) new with
+  | nil =>
+    have := List.drop_eq_nil_iff.mp hd
+    omega
+  | cons x xs =>
+    simp only [List.cons_append, newest]
+    have : x ∈ List.drop (new.length + old.length - k) new := by rw [hd]; exact List.mem_cons_self
+    have h3 : List.drop (new.length + old.length - k) new = List.drop ((new.length + old.length - k - 1)) (List.drop 1 new) := by
+      rw [List.drop_drop]; congr 1; omega
+    rw [h3] at this
+    exact List.mem_of_mem_drop this
+
+theorem histAt_top (h : List KV) (k : Nat) (hk : h.length ≤ k) : histAt h k = newest h := by
+  unfold histAt
+  have : h.length - min k h.length = 0 := by omega
+  rw [this, List.drop_zero]
+/-- the newest element of the store history is the store (on the projection); before the first
+mutation the store is empty -/
+def HeadOK (n : Node) : Prop := KV.Same (newest n.hist) n.kv
+
+theorem headOK_init : HeadOK ({} : Node) := KV.Same.refl _
+
+theorem headOK_seg {n n' : Node} {mid : List KV} (h : HeadOK n) (hs : Seg n n' mid) : HeadOK n' := by
+  obtain ⟨a, bs, e, ha, pb, pa, pe⟩ := hs
+  unfold HeadOK
+  rw [e]
+  match a, ha, pa, pe with
+  | [], _, _, pe =>
+    obtain ⟨hm, hk⟩ := pe rfl
+    subst hm
+    cases bs with
+    | nil => exact h.trans hk.symm
+    | cons b r => exact (pb b List.mem_cons_self).trans hk.symm
+  | [x], _, pa, _ => exact pa x List.mem_cons_self
+  | _ :: _ :: _, ha, _, _ => simp at ha
+
+theorem seg_grows {n n' : Node} {mid : List KV} (hs : Seg n n' mid) : ∃ new, n'.hist = new ++ n.hist := by
+  obtain ⟨a, bs, e, _⟩ := hs
+  exact ⟨a ++ (mid ++ bs), by rw [e]; simp⟩
+
+/-- the history only grows the store history: no crash / reset-before-start-up / recovery reset
+(they rewind it or start a new one) and no factory reset in it -/
+def growOnly (ops : List Op) : Prop := ∀ op ∈ ops, rewinds op = false ∧ op ≠ .freset
+
+theorem run_grows (cfg : Cfg) : ∀ (ops : List Op) (n : Node), growOnly ops →
+    ∃ new, (run cfg n ops).hist = new ++ n.hist := by
+  intro ops
+  induction ops with
+  | nil => intro n _; exact ⟨[], rfl⟩
+  | cons op rest ih =>
+    intro n hg
+    have ⟨h1, h2⟩ := hg op List.mem_cons_self
+    obtain ⟨mid, hseg, _⟩ := step_seg cfg n op h2 h1
+    obtain ⟨new1, e1⟩ := seg_grows hseg
+    obtain ⟨new2, e2⟩ := ih (step cfg n op).1 (fun o ho => hg o (List.mem_cons_of_mem _ ho))
+    exact ⟨new2 ++ new1, by show (run cfg (step cfg n op).1 rest).hist = _; rw [e2, e1, List.append_assoc]⟩
+
+/-- the number of store mutations after the first `m` operations of the history -/
+def muts (cfg : Cfg) (ops : List Op) (m : Nat) : Nat := (run cfg {} (ops.take m)).hist.length
+
+theorem muts_le (cfg : Cfg) (ops : List Op) (hg : growOnly ops) (m : Nat) :
+    muts cfg ops m ≤ (run cfg {} ops).hist.length := by
+  unfold muts
+  have hsplit : ops = ops.take m ++ ops.drop m := (List.take_append_drop m ops).symm
+  have hgd : growOnly (ops.drop m) := fun o ho => hg o (List.mem_of_mem_drop ho)
+  obtain ⟨new, e⟩ := run_grows cfg (ops.drop m) (run cfg {} (ops.take m)) hgd
+  have : run cfg {} ops = run cfg (run cfg {} (ops.take m)) (ops.drop m) := by
+    conv => lhs; rw [hsplit]
+    exact run_append cfg {} _ _
+  rw [this, e]
+  simp
+
+/-- **Positional**: the store after the `k`-th mutation of the history equals (on the projection) the
+store at the boundary after the first `m` operations, where `m` is the LONGEST prefix all of whose
+store mutations are among the first `k` (`muts m ≤ k < muts (m+1)`) - unless `k` lies strictly inside
+the two store mutations of a CommissioningComplete (operation `m`) -/
+def Positional (cfg : Cfg) (ops : List Op) : Prop :=
+  ∀ m k, m ≤ ops.length → muts cfg ops m ≤ k → (m < ops.length → k < muts cfg ops (m + 1)) →
+    (k = muts cfg ops m ∨ ∀ op, ops[m]? = some op → ¬ twoWriteComplete cfg (run cfg {} (ops.take m)) op) →
+    KV.Same (histAt (run cfg {} ops).hist k) (run cfg {} (ops.take m)).kv
+
+theorem positional_nil (cfg : Cfg) : Positional cfg [] := by
+  intro m k hm _ _ _
+  have : m = 0 := by simpa using hm
+  subst this
+  have h0 : histAt ([] : List KV) k = {} := by simp [histAt, newest]
+  show KV.Same (histAt [] k) ({} : KV)
+  rw [h0]; exact KV.Same.refl _
+
+theorem positional_snoc (cfg : Cfg) (pre : List Op) (op : Op) (hg : growOnly (pre ++ [op]))
+    (hh : HeadOK (run cfg {} pre)) (hp : Positional cfg pre) :
+    HeadOK (run cfg {} (pre ++ [op])) ∧ Positional cfg (pre ++ [op]) := by
+  have hgp : growOnly pre := fun o ho => hg o (List.mem_append_left _ ho)
+  have ⟨hrw, hop⟩ := hg op (List.mem_append_right _ List.mem_cons_self)
+  have hrun : run cfg {} (pre ++ [op]) = (step cfg (run cfg {} pre) op).1 := by rw [run_append]; rfl
+  obtain ⟨mid, hseg, hmid⟩ := step_seg cfg (run cfg {} pre) op hop hrw
+  have hh' : HeadOK (run cfg {} (pre ++ [op])) := by rw [hrun]; exact headOK_seg hh hseg
+  refine ⟨hh', ?_⟩
+  obtain ⟨a, bs, e, ha, pb, pa, pe⟩ := hseg
+  have htake : ∀ m, m ≤ pre.length → (pre ++ [op]).take m = pre.take m := fun m hm =>
+    List.take_append_of_le_length hm
+  have htakeL : (pre ++ [op]).take (pre.length + 1) = pre ++ [op] := by
+    rw [List.take_of_length_le]; simp
+  have hmutsL : muts cfg pre pre.length = (run cfg {} pre).hist.length := by
+    unfold muts; rw [List.take_length]
+  intro m k hm hlo hhi hmidk
+  simp only [List.length_append, List.length_singleton] at hm hhi
+  have hlen' : (run cfg {} (pre ++ [op])).hist = (a ++ (mid ++ bs)) ++ (run cfg {} pre).hist := by
+    rw [hrun, e]; simp
+  by_cases hmL : m ≤ pre.length
+  · -- a boundary of `pre`
+    have hmm : muts cfg (pre ++ [op]) m = muts cfg pre m := by unfold muts; rw [htake m hmL]
+    rw [htake m hmL]
+    rw [hmm] at hlo hmidk
+    by_cases hmlt : m < pre.length
+    · have hm1 : muts cfg (pre ++ [op]) (m + 1) = muts cfg pre (m + 1) := by
+        unfold muts; rw [htake (m + 1) (by omega)]
+      have hk1 := hhi (by omega)
+      rw [hm1] at hk1
+      have hkle : k ≤ (run cfg {} pre).hist.length := by
+        have := muts_le cfg pre hgp (m + 1); omega
+      rw [hlen', histAt_old _ _ _ hkle]
+      refine hp m k (by omega) hlo (fun _ => hk1) ?_
+      rcases hmidk with h | h
+      · exact Or.inl h
+      · refine Or.inr (fun o ho => ?_)
+        have : (pre ++ [op])[m]? = some o := by rw [List.getElem?_append_left hmlt]; exact ho
+        have := h o this
+        rwa [htake m hmL] at this
+    · have hmeq : m = pre.length := by omega
+      subst hmeq
+      rw [hmutsL] at hlo hmidk
+      have hk1 := hhi (by omega)
+      have hm1 : muts cfg (pre ++ [op]) (pre.length + 1) = (run cfg {} (pre ++ [op])).hist.length := by
+        unfold muts; rw [htakeL]
+      rw [hm1] at hk1
+      rw [List.take_length]
+      by_cases hkeq : k = (run cfg {} pre).hist.length
+      · rw [hlen', histAt_old _ _ _ (by omega), hkeq, histAt_top _ _ (Nat.le_refl _)]
+        exact hh
+      · -- strictly inside what `op` added: not the newest element, and not in the middle of a commit
+        have hmid0 : mid = [] := by
+          rcases hmid with h | ⟨htw, _⟩
+          · exact h
+          · rcases hmidk with h | h
+            · exact absurd h hkeq
+            · have hget : (pre ++ [op])[pre.length]? = some op := by simp
+              have := h op hget
+              rw [htake pre.length (Nat.le_refl _), List.take_length] at this
+              exact absurd htw this
+        subst hmid0
+        have hin := histAt_new (a ++ ([] ++ bs)) (run cfg {} pre).hist k (by omega) (by rw [← hlen']; exact hk1)
+        rw [hlen']
+        have hbs : histAt ((a ++ ([] ++ bs)) ++ (run cfg {} pre).hist) k ∈ bs := by
+          simp only [List.nil_append] at hin ⊢
+          match a, ha with
+          | [], _ => exact List.mem_of_mem_drop hin
+          | [x], _ => simpa using hin
+          | _ :: _ :: _, ha => simp at ha
+        exact pb _ hbs
+  · -- the new boundary: the whole history
+    have hmeq : m = pre.length + 1 := by omega
+    subst hmeq
+    have hm1 : muts cfg (pre ++ [op]) (pre.length + 1) = (run cfg {} (pre ++ [op])).hist.length := by
+      unfold muts; rw [htakeL]
+    rw [hm1] at hlo
+    rw [htakeL, histAt_top _ _ hlo]
+    exact hh'
+
+/-- **Every history that only grows the store history is positional** -/
+theorem positional_all (cfg : Cfg) : ∀ (rest pre : List Op), growOnly (pre ++ rest) →
+    HeadOK (run cfg {} pre) → Positional cfg pre →
+    HeadOK (run cfg {} (pre ++ rest)) ∧ Positional cfg (pre ++ rest) := by
+  intro rest
+  induction rest with
+  | nil => intro pre _ hh hp; rw [List.append_nil]; exact ⟨hh, hp⟩
+  | cons op r ih =>
+    intro pre hg hh hp
+    have e : pre ++ op :: r = (pre ++ [op]) ++ r := by simp
+    rw [e] at hg ⊢
+    have ⟨h1, h2⟩ := positional_snoc cfg pre op (fun o ho => hg o (List.mem_append_left _ ho)) hh hp
+    exact ih (pre ++ [op]) hg h1 h2
+
+theorem positional (cfg : Cfg) (ops : List Op) (hg : growOnly ops) : Positional cfg ops := by
+  have := positional_all cfg ops [] (by simpa using hg) headOK_init (positional_nil cfg)
+  simpa using this.2
+
 end Admin
